@@ -1,4 +1,4 @@
-(* VirtualViews.v — C20 at view level: on a virtual tree (vrel) every model view operation computes what it computes on the materialised tree: the same failure, or related (equally rooted) results and the same data.  sim / sim_bind make the operations' bind chains compose. *)
+(* VirtualViews.v — C20 at view level: on a virtual tree (vrel) every model view operation computes what it computes on the materialised tree: the same failure, or related (equally rooted) results and the same data; serialisation gives the same bytes.  sim / sim_bind make the operations' bind chains compose. *)
 Require Import RM.Base RM.Gindex RM.Tree RM.TreeProofs RM.Types RM.Spec RM.ModelViews RM.ModelCodec RM.ModelMut RM.VirtualProofs.
 From Coq Require Import ZifyBool ZifyNat ZifyN.
 Local Open Scope N_scope.
@@ -276,6 +276,72 @@ Proof.
   destruct (union_opt none0 opts (N.to_nat sel')) as [o|].
   - apply sim_ret. split; [reflexivity|exact Hn].
   - rewrite (vr_root vn vm Hn). destruct (bytes_eqb (root vm) zero32); [now apply sim_ret|reflexivity].
+Qed.
+
+
+(* ---- serialisation: the encoding of a view over a virtual tree is the encoding over the materialised tree ---- *)
+Lemma sim_eq_is_eq {A} (a b : result A) : sim eq a b -> a = b.
+Proof. unfold sim. destruct b as [y|e]; [intros (x & -> & ->); reflexivity|auto]. Qed.
+
+Lemma bind_vr {A} (a b : result node) (f g : node -> result A) : sim vr a b -> (forall c c', vr c c' -> f c = g c') -> bind a f = bind b g.
+Proof.
+  unfold sim. destruct b as [y|e]; [intros (x & -> & Hxy) Hfg; cbn [bind]; now apply Hfg|intros -> _; reflexivity].
+Qed.
+
+Lemma vr_read_chunks v m d count : vr v m -> read_chunks H src v d count = read_chunks H src m d count.
+Proof.
+  intros Hv. unfold read_chunks. f_equal. f_equal. apply map_ext. intros i.
+  apply (bind_vr _ _ _ _ (vr_getter_i v m i d Hv)). intros c c' Hc. now rewrite (vr_root c c' Hc).
+Qed.
+
+Lemma vr_bits_serialize b v m td bl : vr v m -> bits_serialize H src b v td bl = bits_serialize H src b m td bl.
+Proof.
+  intros Hv. unfold bits_serialize. cbv zeta. rewrite (vr_read_chunks v m td _ Hv).
+  destruct (read_chunks H src m td ((bl + 255) / 256 - 1)) as [fb|]; [|reflexivity]. cbn [bind].
+  destruct (0 <? (bl + 255) / 256); [|reflexivity].
+  apply (bind_vr _ _ _ _ (vr_getter_i v m _ td Hv)). intros c c' Hc. now rewrite (vr_root c c' Hc).
+Qed.
+
+Theorem vr_ser : forall t v m, vr v m -> ser_impl H src t v = ser_impl H src t m.
+Proof.
+  induction t as [k| |bn|bl|yn|yl|e n IHe|e l IHe|fs Hfs|b os Hos] using ty_ind'; intros v m Hv; cbn [ModelCodec.ser_impl].
+  - now rewrite (vr_root v m Hv).
+  - now rewrite (vr_root v m Hv).
+  - now rewrite (vr_bits_serialize false v m _ _ Hv).
+  - rewrite (sim_eq_is_eq _ _ (vr_mixin v m Hv)). destruct (mixin_value m) as [ll|]; [|reflexivity]. cbn [bind].
+    now rewrite (vr_bits_serialize true v m _ _ Hv).
+  - cbv zeta. rewrite (vr_root v m Hv), (vr_read_chunks v m _ _ Hv). reflexivity.
+  - cbv zeta. apply (bind_vr _ _ _ _ (vr_get_left v m Hv)). intros c c' Hc.
+    rewrite (sim_eq_is_eq _ _ (vr_mixin v m Hv)). destruct (mixin_value m) as [ll|]; [|reflexivity]. cbn [bind].
+    destruct (yl <? ll); [reflexivity|]. now rewrite (vr_root c c' Hc), (vr_read_chunks c c' _ _ Hc).
+  - (* vector *) cbn [view_len bind]. cbv zeta. destruct (basic_size e) as [s|].
+    + f_equal. f_equal. apply map_ext. intros i. apply (bind_vr _ _ _ _ (vr_getter_i v m _ _ Hv)). intros c c' Hc.
+      unfold packed_elem_bytes. now rewrite (vr_root c c' Hc).
+    + assert (map (fun i => do c <- getter_i v i (tree_depth (TVector e n)); ser_impl H src e c) (iotaN (N.to_nat n)) =
+              map (fun i => do c <- getter_i m i (tree_depth (TVector e n)); ser_impl H src e c) (iotaN (N.to_nat n))) as ->; [|reflexivity].
+      apply map_ext. intros i. apply (bind_vr _ _ _ _ (vr_getter_i v m _ _ Hv)). intros c c' Hc. now apply IHe.
+  - (* list *) cbn [view_len]. rewrite (sim_eq_is_eq _ _ (vr_mixin v m Hv)). destruct (mixin_value m) as [ll|]; [|reflexivity]. cbn [bind]. cbv zeta.
+    destruct (basic_size e) as [s|].
+    + f_equal. f_equal. apply map_ext. intros i. apply (bind_vr _ _ _ _ (vr_getter_i v m _ _ Hv)). intros c c' Hc.
+      unfold packed_elem_bytes. now rewrite (vr_root c c' Hc).
+    + assert (map (fun i => do c <- getter_i v i (tree_depth (TList e l)); ser_impl H src e c) (iotaN (N.to_nat ll)) =
+              map (fun i => do c <- getter_i m i (tree_depth (TList e l)); ser_impl H src e c) (iotaN (N.to_nat ll))) as ->; [|reflexivity].
+      apply map_ext. intros i. apply (bind_vr _ _ _ _ (vr_getter_i v m _ _ Hv)). intros c c' Hc. now apply IHe.
+  - (* container *) cbv zeta. f_equal.
+    generalize (tree_depth (TContainer fs)) as td. intros td.
+    generalize (@nil byte, @nil byte, fold_left (fun acc f => acc + (if is_fixed_impl f then min_impl f else OFFSET)) fs 0) as acc0.
+    generalize 0 as i0. intros i0 acc0. revert acc0 i0.
+    induction Hfs as [|f fs' Hf Hfs' IH]; intros acc0 i0; [reflexivity|].
+    destruct acc0 as [[fx vr0] written].
+    apply (bind_vr _ _ _ _ (vr_getter_i v m i0 td Hv)). intros c c' Hc. rewrite (Hf c c' Hc).
+    destruct (ser_impl H src f c') as [x|]; [|reflexivity]. cbn [bind]. destruct (is_fixed_impl f); apply IH.
+  - (* union *)
+    rewrite (sim_eq_is_eq _ _ (vr_mixin v m Hv)). destruct (mixin_value m) as [sel|]; [|reflexivity]. cbn [bind].
+    destruct (lenN os + (if b then 1 else 0) <=? sel); [reflexivity|].
+    apply (bind_vr _ _ _ _ (vr_get_left v m Hv)). intros c c' Hc. rewrite (vr_root c c' Hc).
+    destruct (b && (sel =? 0)); [reflexivity|]. f_equal.
+    generalize (N.to_nat (if b then sel - 1 else sel)) as j. induction Hos as [|o os' Ho Hos' IH]; intros j; [destruct j; reflexivity|].
+    destruct j as [|j]; [now apply Ho|apply IH].
 Qed.
 
 (* where it starts: a virtual node over a source that is a root-keyed store of the materialised tree *)
